@@ -722,9 +722,14 @@ fn stream_hv() {
         Ep { id: 2, method: "GET".into(), path: "/v".into(), range: Rg::From("2.0.0".into()), visible: true },
     ];
     let n = if is_thorough() { 6000 } else { 600 };
-    for max in ["2.5.0", "1.0.0", "1.0.0-rc.1"] {
+    // the policy must also be enforced when no endpoint is version-restricted
+    // (one unrestricted endpoint answers every version: bracket "0")
+    let eps_unrestricted =
+        vec![Ep { id: 0, method: "GET".into(), path: "/v".into(), range: Rg::All, visible: true }];
+    for (max, restricted) in [("2.5.0", true), ("1.0.0", true), ("1.0.0-rc.1", true), ("2.5.0", false), ("1.0.0-rc.1", false)] {
+        let eps: &Vec<Ep> = if restricted { &eps } else { &eps_unrestricted };
         let mut api = dropshot::ApiDescription::<()>::new();
-        for e in &eps {
+        for e in eps {
             api.register(live_endpoint(e).unwrap()).unwrap();
         }
         let policy = dropshot::VersionPolicy::Dynamic(Box::new(dropshot::ClientSpecifiesVersionInHeader::new(
@@ -767,7 +772,7 @@ fn stream_hv() {
                 let parsed = seen.as_ref().and_then(|v| std::str::from_utf8(v).ok().map(|s| s.to_string())).and_then(|s| Version::parse(&s).ok());
                 match parsed {
                     Some(v) => {
-                        let bracket = if v < Version::parse("1.0.0").unwrap() { "0" } else if v < Version::parse("2.0.0").unwrap() { "1" } else { "2" };
+                        let bracket = if !restricted || v < Version::parse("1.0.0").unwrap() { "0" } else if v < Version::parse("2.0.0").unwrap() { "1" } else { "2" };
                         if body.starts_with(&format!("ok:{}:", bracket)) { format!("ok:{}", v) } else { format!("ok:wrong-handler:{}", body) }
                     }
                     None => "ok:unparsable-but-served".to_string(),
